@@ -2012,23 +2012,66 @@ impl LpgStore {
     #[cfg(not(feature = "tiered-storage"))]
     pub fn discard_uncommitted_versions(&self, tx_id: TxId) {
         // Remove uncommitted node versions
+        let mut removed_nodes: Vec<NodeId> = Vec::new();
         {
             let mut nodes = self.nodes.write();
-            for chain in nodes.values_mut() {
-                chain.remove_versions_by(tx_id);
+            for (id, chain) in nodes.iter_mut() {
+                if chain.modified_by(tx_id) {
+                    chain.remove_versions_by(tx_id);
+                    if chain.is_empty() {
+                        removed_nodes.push(*id);
+                    }
+                }
             }
             // Remove completely empty chains (no versions left)
             nodes.retain(|_, chain| !chain.is_empty());
         }
 
+        // Nodes that existed only in this transaction: drop their labels, index
+        // entries and properties as well, so no access path still finds them.
+        for id in removed_nodes {
+            {
+                let mut index = self.label_index.write();
+                let mut node_labels = self.node_labels.write();
+                if let Some(label_ids) = node_labels.remove(&id) {
+                    for label_id in label_ids {
+                        if let Some(set) = index.get_mut(label_id as usize) {
+                            set.remove(&id);
+                        }
+                    }
+                }
+            }
+            self.remove_from_property_indexes(id);
+            self.node_properties.remove_all(id);
+        }
+
         // Remove uncommitted edge versions
+        let mut removed_edges: Vec<(EdgeId, NodeId, NodeId)> = Vec::new();
         {
             let mut edges = self.edges.write();
-            for chain in edges.values_mut() {
-                chain.remove_versions_by(tx_id);
+            for (id, chain) in edges.iter_mut() {
+                if chain.modified_by(tx_id) {
+                    let endpoints = chain.latest().map(|r| (r.src, r.dst));
+                    chain.remove_versions_by(tx_id);
+                    if chain.is_empty()
+                        && let Some((src, dst)) = endpoints
+                    {
+                        removed_edges.push((*id, src, dst));
+                    }
+                }
             }
             // Remove completely empty chains (no versions left)
             edges.retain(|_, chain| !chain.is_empty());
+        }
+
+        // Edges that existed only in this transaction: take them out of the
+        // adjacency lists and drop their properties.
+        for (id, src, dst) in removed_edges {
+            self.forward_adj.mark_deleted(src, id);
+            if let Some(ref backward) = self.backward_adj {
+                backward.mark_deleted(dst, id);
+            }
+            self.edge_properties.remove_all(id);
         }
     }
 
